@@ -6,6 +6,8 @@ package w08
 import (
 	"fmt"
 	"math"
+	"os"
+	"path/filepath"
 	"sort"
 	"strings"
 
@@ -203,6 +205,9 @@ func Run(j *job.Job, s *job.Sink) {
 		section("ca", "  choice ch { case ca { leaf filler { type string; }\n", "  } }\n")
 		section("g", "  grouping g { leaf gfiller { type string; }\n", "  }\n  container u1 { uses g; }\n  container u2 { uses g; }\n")
 		base.WriteString("  choice lch { container alt { leaf altfill { type string; } } }\n")
+		// a choice with a default case; now and then a deviation removes exactly that case (the
+		// choice itself is no target: it stays as it is, default statement and all)
+		base.WriteString("  choice dch { default dc1; case dc1 { leaf dl1 { type string; } } case dc2 { leaf dl2 { type string; } } leaf dc3 { type string; } }\n")
 		base.WriteString("}\n")
 		// module a augments b: into container box, and - through the implicit case of the
 		// shorthand member alt, which only the last augment pass can resolve - into lch/alt
@@ -583,6 +588,12 @@ func Run(j *job.Job, s *job.Sink) {
 		for _, rl := range removeLater {
 			texts[ndm-1].WriteString(rl)
 		}
+		dropDefaultCase := ""
+		if r.Intn(6) == 0 {
+			dropDefaultCase = []string{"/b/dch/dc1", "/b/dch/dc2", "/b/dch/dc3"}[r.Intn(3)]
+			texts[ndm-1].WriteString("  deviation " + strings.ReplaceAll(strings.TrimPrefix(dropDefaultCase, "/b"), "/", "/bb:") + " { deviate not-supported; }\n")
+			s.Count("cases_with_a_case_of_a_choice_removed", 1)
+		}
 		for mi := range texts {
 			texts[mi].WriteString("}\n")
 		}
@@ -652,9 +663,43 @@ func Run(j *job.Job, s *job.Sink) {
 		}
 		var traceFindings []hooklog.DeviateFinding
 		traceApplied := 0
+		// Half of the cases that keep deviations in submodules load from files: the modules are
+		// read by name, the submodules are fetched by the processing run itself when it links
+		// the include statements. Their deviations count like all others.
+		fromDisk := len(subTexts) > 0 && r.Intn(2) == 0
+		if fromDisk {
+			s.Count("cases_loaded_from_files_with_fetched_submodules", 1)
+		}
 		run := func(withDev bool) (*yang.Modules, []error) {
 			ms := yang.NewModules()
 			ms.ParseOptions.DeviateOptions.IgnoreDeviateNotSupported = ignoreNS
+			if withDev && fromDisk {
+				dir := fmt.Sprintf("c08disk-%d", c)
+				os.MkdirAll(dir, 0o755)
+				defer os.RemoveAll(dir)
+				files := [][2]string{{"b.yang", base.String()}, {"a.yang", augText.String()}}
+				for mi := range texts {
+					files = append(files, [2]string{[]string{"d.yang", "e.yang"}[mi], texts[mi].String()})
+				}
+				for _, f := range files {
+					os.WriteFile(filepath.Join(dir, f[0]), []byte(f[1]), 0o644)
+				}
+				for _, st := range subTexts {
+					os.WriteFile(filepath.Join(dir, st[0]), []byte(st[1]), 0o644)
+				}
+				ms.AddPath(dir)
+				for _, f := range files {
+					if err := ms.Read(filepath.Join(dir, f[0])); err != nil {
+						return ms, []error{err}
+					}
+				}
+				var errs []error
+				evs := hooklog.Collect(func() { errs = ms.Process() })
+				tf, n := hooklog.CheckDeviates(evs)
+				traceFindings = append(traceFindings, tf...)
+				traceApplied += n
+				return ms, errs
+			}
 			if err := ms.Parse(base.String(), "b.yang"); err != nil {
 				panic(err)
 			}
@@ -806,6 +851,13 @@ func Run(j *job.Job, s *job.Sink) {
 			mism := false
 			// targets
 			removedUnder := []string{}
+			if dropDefaultCase != "" && !ignoreNS {
+				removedUnder = append(removedUnder, dropDefaultCase)
+				if _, present := after[dropDefaultCase]; present {
+					bad("not-removed", "%s", dropDefaultCase)
+					mism = true
+				}
+			}
 			for tp, rc := range targetPath {
 				want := expect(exp[rc.name])
 				got, present := after[tp]
